@@ -100,6 +100,12 @@ type ReqOpts struct {
 	AllBound  bool // every listed provider has a binding
 	Module    bool // the context may belong to another module (callbacks registered)
 	Earned    bool // providers may hold earned fees
+	NoSlash   bool // slash fraction fixed to 0 (lifecycle-focused scenes; slashing is decided by the C03/C04/C14 scenes)
+	ZeroDep   int  // the first ZeroDep providers' bindings may hold a zero deposit (refunded bindings)
+	MinReq    int  // at least MinReq requests in the batch in flight
+	Vol       bool // consumers may already have a request volume with the providers
+	Restart   bool // allow frequency == timeout: the next batch starts in the block in which this one expires
+	OneOutput bool // stored responses all carry a well-formed output (their shape only matters to callbacks)
 	OnlyState int  // -1: any state
 }
 
@@ -124,6 +130,9 @@ func (s *ReqScene) ctxFields(tag string, o ReqOpts) {
 		vf.And(vf.And(vf.Or(total == -1, total >= 1), total < maxH), vf.And(s.MaxTotal >= total, s.MaxTotal < maxH)))))
 	vf.Assume(vf.Implies(vf.And(repeated, total > 0), int64(bc) <= s.MaxTotal))
 	vf.Assume(vf.Implies(!repeated, vf.And(vf.And(freq == 0, total == 0), bc <= 1)))
+	if o.AtExpiry && !o.Restart {
+		vf.Assume(vf.Implies(repeated, freq > uint64(timeout)))
+	}
 	module := ""
 	if o.Module && vf.Bool(tag+".module") {
 		module = Mod
@@ -152,6 +161,11 @@ func NewReqScene(o ReqOpts) *ReqScene {
 	s.Ctx, s.H, s.Now = Block(s.Ctx)
 	ctx := s.Ctx
 	Define(k, ctx, Svc)
+	if o.NoSlash {
+		p := k.GetParams(ctx)
+		p.SlashFraction = sdk.ZeroDec()
+		k.SetParams(ctx, p)
+	}
 	s.Log = registerCallbacks(k)
 	s.N = 1 + vf.Choice("nprov", o.MaxProv)
 	s.Owner = vf.Addr("owner", 20)
@@ -170,16 +184,15 @@ func NewReqScene(o ReqOpts) *ReqScene {
 	for i := 0; i < s.N; i++ {
 		s.Earned0[i] = sdk.ZeroInt()
 		if o.AllBound || vf.Bool("bound"+digit(i)) {
-			s.Binds[i] = Binding(k, ctx, "b"+digit(i), Svc, s.Provs[i], s.Owner, o.NT, o.NV)
+			s.Binds[i] = Binding(k, ctx, "b"+digit(i), Svc, s.Provs[i], s.Owner, o.NT, o.NV, i < o.ZeroDep)
 			s.DepAcc0 = s.DepAcc0.Add(s.Binds[i].Deposit)
-			if o.NV > 0 {
+			if o.NV > 0 || o.Vol {
 				s.Vol0[i] = vf.Uint64("vol" + digit(i))
 				vf.Assume(s.Vol0[i] < uint64(maxH))
-				if s.Vol0[i] > 0 {
-					k.SetRequestVolume(ctx, s.Consumer, Svc, s.Provs[i], s.Vol0[i])
-				}
+				k.SetRequestVolume(ctx, s.Consumer, Svc, s.Provs[i], s.Vol0[i])
 			}
-			if o.Earned && vf.Bool("hasEarned"+digit(i)) {
+			// provider 0 may or may not hold earnings; the others always do (they serve as the frame)
+			if o.Earned && (i > 0 || vf.Bool("hasEarned"+digit(i))) {
 				s.Earned0[i] = vf.Amount("earned" + digit(i))
 				vf.Assume(s.Earned0[i].IsPositive())
 				k.SetEarnedFees(ctx, s.Provs[i], coins(s.Earned0[i]))
@@ -220,6 +233,9 @@ func NewReqScene(o ReqOpts) *ReqScene {
 func (s *ReqScene) addBatch(o ReqOpts) {
 	k, ctx := s.K, s.Ctx
 	vf.Assume(s.Pre.BatchCounter >= 1)
+	// a one-shot context with a batch in flight is running: it cannot be paused or killed by a message,
+	// and a pause for lack of funds happens only when no batch is issued
+	vf.Assume(vf.Implies(!s.Pre.Repeated, s.Pre.State == types.RUNNING))
 	if o.AtExpiry {
 		s.ExpH = s.H
 	} else {
@@ -230,7 +246,7 @@ func (s *ReqScene) addBatch(o ReqOpts) {
 	// issued in an earlier block, under a timeout of at least one block
 	vf.Assume(vf.And(s.ReqH >= 1, s.ReqH < s.H))
 	vf.Assume(s.ReqH < s.ExpH)
-	s.M = vf.Choice("nreq", s.N+1) // 0: the batch was skipped
+	s.M = o.MinReq + vf.Choice("nreq", s.N+1-o.MinReq) // 0: the batch was skipped
 	s.ReqIDs = make([]tmbytes.HexBytes, s.M)
 	s.ReqProv = make([]int, s.M)
 	s.Active = make([]bool, s.M)
@@ -257,7 +273,11 @@ func (s *ReqScene) addBatch(o ReqOpts) {
 		} else {
 			nresp++
 			result := ResultOK
-			switch vf.Choice("out"+digit(j), 3) {
+			pick := 0
+			if !o.OneOutput {
+				pick = vf.Choice("out"+digit(j), 3)
+			}
+			switch pick {
 			case 0:
 				s.Output[j] = OutputOK
 			case 1:
